@@ -4,7 +4,7 @@ PROPS["C12"] = dict(
     rule="case = pool limit 1/2/3/10, idle timeout 5 ms (workers leave during the batch) / 20 ms / 30 s, pool warm or cold, and a script that issues "
          "1..40 futures with delays from {-5,0,1,2,5,10,20,35,60} ms (many ties, bursts of equal deadlines), some with callbacks blocking 1..20 ms, "
          "from the driver or from goroutines of their own, interleaved with Cancel calls (any future by index or the head of the queue, 1..3 times, "
-         "before or after firing, from another goroutine) and short sleeps; a 'neighbour' step issues two futures 3..200 microseconds apart with the same delay while a busy callback frees a worker exactly at the first deadline. t0 is read immediately before Call (fire time is computed after it), "
+         "before or after firing, from another goroutine) and short sleeps; a 'neighbour' step issues two futures 3..200 microseconds apart with the same delay while a busy callback frees a worker exactly at the first deadline; a 'past' step issues a future whose delay lies far below zero (minus 1 s..1 h, -1000 h, -60 and -100 years = a fire time before the Unix epoch, about the epoch and the zero time themselves, the minimum Duration): due at once, exactly one start; a 'saturate' step gives every worker the pool may have a callback that keeps it for 5..30 ms, so that the following calls and cancels meet a queue nobody looks at; an 'equal' step constructs 2..4 futures whose fire instants are EXACTLY equal under the real clock (the first with delay d, the others with the remaining delay corrected by a guessed call overhead, retried - up to 400000 cancelled attempts - until the queued instant read back through the overlay accessor VerifFireTime matches) and cancels a drawn subset of them: the others must start, the cancelled ones must not. t0 is read immediately before Call (fire time is computed after it), "
          "Cancel's return time immediately after it returns. A generations unit schedules a first generation of 1..9000(20000) futures (due in 10 min and cancelled, or due at once and left to fire, or alternating), a second generation of 1..3000 futures due 30-150 ms ahead (part of it before the first cancel sweep), "
          "and then cancels every handle of the first generation again 0-3 times (forward, reverse or shuffled): every future of the second generation is started exactly once, not early; the heap stays consistent. In 'layered' cases the first generation is a heap of 3..127 futures, two thirds due in 10 min and one third within 150-400 ms; the far ones are cancelled one by one "
          "and after every cancel the pending queue is checked to be a heap with consistent indexes (overlay accessor); the near ones must start on time. non-trivial = a Cancel removed a pending future that was not the latest of >= 3 "
